@@ -49,9 +49,15 @@ type c16Act struct {
 	Wait    int    `json:"wait,omitempty"`
 }
 
+type c16Fail struct {
+	Act int `json:"act"` // index of the action during which the K-th store call fails (uploads, publishes, avatar updates)
+	K   int `json:"k"`
+}
+
 type c16Prog struct {
-	Sc   Scenario `json:"scenario"`
-	Acts []c16Act `json:"acts"`
+	Sc    Scenario  `json:"scenario"`
+	Acts  []c16Act  `json:"acts"`
+	Fails []c16Fail `json:"fails,omitempty"`
 }
 
 var c16Sizes = []int{0, 1, 17, 600, 3000, 3700, 3900, 4096, 4200, 9000}
@@ -73,6 +79,35 @@ func genC16(rt *rapid.T) c16Prog {
 			Wait:    rapid.SampledFrom([]int{30, 600, 3000, 3500, 3700, 4000, 7300}).Draw(rt, "wait"),
 		}
 		p.Acts = append(p.Acts, a)
+	}
+	// scripted tail, one run in four: an avatar is replaced while a store call of the replacement fails, then the
+	// grace period passes
+	if rapid.IntRange(0, 3).Draw(rt, "tail") == 0 {
+		usr := rapid.IntRange(0, 2).Draw(rt, "tailuser")
+		k := rapid.IntRange(1, 4).Draw(rt, "tailk")
+		up := c16Act{Kind: "up", User: usr, Size: 600}
+		base := len(p.Acts)
+		p.Acts = append(p.Acts, up, c16Act{Kind: "avatar", User: usr, Ref: -1}, up, c16Act{Kind: "avatar", User: usr, Ref: -1}, c16Act{Kind: "gc"}, c16Act{Kind: "down", User: usr, Ref: -2})
+		p.Fails = append(p.Fails, c16Fail{Act: base + 3, K: k})
+		n = len(p.Acts)
+	}
+	// store failures (drawn last so that the draws above keep their positions): one run in three has 1-2
+	if rapid.IntRange(0, 2).Draw(rt, "faulty") == 0 {
+		nf := rapid.IntRange(1, 2).Draw(rt, "nfails")
+		for i := 0; i < nf; i++ {
+			// prefer the actions that can be interrupted at all
+			var cand []int
+			for j, a := range p.Acts {
+				if a.Kind == "up" || a.Kind == "pubatt" || a.Kind == "avatar" {
+					cand = append(cand, j)
+				}
+			}
+			act := rapid.IntRange(0, n-1).Draw(rt, "failact")
+			if len(cand) > 0 {
+				act = cand[act%len(cand)]
+			}
+			p.Fails = append(p.Fails, c16Fail{Act: act, K: rapid.IntRange(1, 5).Draw(rt, "failk")})
+		}
 	}
 	return p
 }
@@ -273,11 +308,18 @@ func runC16(t *testing.T, sched simrt.Schedule, prog c16Prog) ([]Violation, RunS
 		wasLinked := map[types.Uid]bool{}
 		collectable := func(u *c16Up) bool { return !wasLinked[u.ID] && w.rt.Now()-u.At > time.Hour }
 		var linkedNow func(id types.Uid) bool
+		var pinCheck func(id types.Uid) string
+		var faultNote func(kind string) string
 		// every completed upload that the ledger says must exist does, with its bytes
 		verifyStore := func(where string, mayBeGone map[types.Uid]bool) {
 			for _, u := range append([]*c16Up{}, ups...) {
 				row := w.Disk.FileUploads[u.ID]
 				data, err := os.ReadFile(u.Location)
+				if why := pinCheck(u.ID); why != "" && (row == nil || err != nil) {
+					out = append(out, vio("C16", "pinned-file-lost "+why+faultNote(why), "%s: upload %s is still the %s of something that exists but is gone (%v old): record=%v file=%v", where, u.URL, why, w.rt.Now()-u.At, row != nil, err == nil))
+					dropUp(u.ID)
+					continue
+				}
 				if mayBeGone[u.ID] {
 					continue
 				}
@@ -315,6 +357,68 @@ func runC16(t *testing.T, sched simrt.Schedule, prog c16Prog) ([]Violation, RunS
 			ups = keep
 		}
 
+		// What must stay, independent of the link table: the avatar an account shows (its stored public.photo.ref)
+		// and the attachments of accepted publishes until the messages or the topic are deleted.
+		msgPins := map[types.Uid]int{}
+		pinnedBy := func(id types.Uid) string {
+			if msgPins[id] > 0 {
+				return "attachment"
+			}
+			for _, r := range w.Disk.Users {
+				var pub map[string]any
+				if json.Unmarshal(r.Public, &pub) == nil {
+					if ph, ok := pub["photo"].(map[string]any); ok {
+						if ref, _ := ph["ref"].(string); ref != "" && store_GetIdFromUrl(ref) == id {
+							return "avatar"
+						}
+					}
+				}
+			}
+			return ""
+		}
+		pinCheck = pinnedBy
+		failAt := map[int]int{}
+		for _, f := range prog.Fails {
+			failAt[f.Act] = f.K
+		}
+		// store methods that failed, per kind of interrupted action: the loss of an avatar is attributed to the
+		// failures inside avatar updates only, and so on
+		failedIn := map[string]map[string]bool{}
+		curKind := ""
+		faultNote = func(kind string) string {
+			if kind == "attachment" {
+				kind = "pubatt"
+			}
+			if len(failedIn[kind]) == 0 {
+				return ""
+			}
+			return " after-failed:" + strings.Join(keys(failedIn[kind]), "+")
+		}
+		arm := func(ai int) int {
+			curKind = prog.Acts[ai].Kind
+			if k := failAt[ai]; k > 0 {
+				simStore.Fault = &faultPlan{FailAt: k}
+				simrt.Probe("fault.store_armed")
+			}
+			return len(simStore.Log)
+		}
+		fired := func(nlog int) bool {
+			f := simStore.Fault != nil && simStore.Fault.Fired
+			simStore.Fault = nil
+			if f {
+				simrt.Probe("fault.store_err")
+				for _, sc2 := range simStore.Log[nlog:] {
+					if sc2.Err == errInjected.Error() {
+						if failedIn[curKind] == nil {
+							failedIn[curKind] = map[string]bool{}
+						}
+						failedIn[curKind][sc2.Method] = true
+					}
+				}
+			}
+			return f
+		}
+
 		pubN := 0
 		for ai, a := range prog.Acts {
 			u := w.Users[a.User%len(w.Users)]
@@ -349,7 +453,9 @@ func runC16(t *testing.T, sched simrt.Schedule, prog c16Prog) ([]Violation, RunS
 				req.RemoteAddr = "10.0.2.1:3000"
 				tooLarge := buf.Len() > int(globals.maxFileUploadSize)
 				preDisk, preDir := w.Disk.Dump(), dirState()
+				nlog := arm(ai)
 				rw := doHTTP(largeFileReceive, req)
+				faulted := fired(nlog)
 				code := rw.Code
 				var resp ServerComMessage
 				json.Unmarshal(rw.Body.Bytes(), &resp)
@@ -362,6 +468,22 @@ func runC16(t *testing.T, sched simrt.Schedule, prog c16Prog) ([]Violation, RunS
 						upURL, _ = pm["url"].(string)
 					}
 					accepted = upURL != ""
+				}
+				if faulted && !accepted {
+					// a store failure inside the upload: any answer but success is fine; what is left behind must be
+					// collectable, i.e. no bytes without a record
+					recs := map[string]bool{}
+					for _, r := range w.Disk.FileUploads {
+						recs[path.Base(r.Location)] = true
+					}
+					ents, _ := os.ReadDir(simUploadDir)
+					for _, e := range ents {
+						if !recs[e.Name()] {
+							out = append(out, vio("C16", "failed-upload-bytes-orphaned"+faultNote("up"), "%s: upload answered %d after a store failure left %s in the upload directory without a record", where, code, e.Name()))
+						}
+					}
+					verifyStore(where, nil)
+					continue
 				}
 				switch {
 				case accepted && mustRefuse:
@@ -407,13 +529,13 @@ func runC16(t *testing.T, sched simrt.Schedule, prog c16Prog) ([]Violation, RunS
 				if len(ups) == 0 {
 					continue
 				}
-				target := ups[a.Ref%len(ups)]
+				target := ups[(a.Ref+2*len(ups))%len(ups)]
 				base := path.Base(target.URL)
 				idstr := base
 				if i := strings.IndexByte(base, '.'); i >= 0 {
 					idstr = base[:i]
 				}
-				other := ups[(a.Ref+1)%len(ups)]
+				other := ups[(a.Ref+1+2*len(ups))%len(ups)]
 				shapes := []struct {
 					url   string
 					names *c16Up // the only upload whose bytes a 200 may carry (nil: must not be 200)
@@ -497,7 +619,7 @@ func runC16(t *testing.T, sched simrt.Schedule, prog c16Prog) ([]Violation, RunS
 				if !c.Connected {
 					continue
 				}
-				target := ups[a.Ref%len(ups)]
+				target := ups[(a.Ref+2*len(ups))%len(ups)] // negative: counted from the latest upload
 				name := c01TopicName(sc, c, 0)
 				var op *Op
 				if a.Kind == "pubatt" {
@@ -509,11 +631,16 @@ func runC16(t *testing.T, sched simrt.Schedule, prog c16Prog) ([]Violation, RunS
 						Extra: &MsgClientExtra{Attachments: []string{target.URL}}})
 				}
 				op.Isolated = true
+				nlog := arm(ai)
 				w.setOps(map[int][]*Op{c.Idx: {op}})
 				w.rt.Run(500*time.Millisecond, nil)
 				w.Enabled(true)
+				faulted := fired(nlog)
 				s := c.Sents[len(c.Sents)-1]
-				if s.Code >= 200 && s.Code < 300 && w.Disk.FileUploads[target.ID] != nil {
+				if a.Kind == "pubatt" && s.Code >= 200 && s.Code < 300 && w.Disk.FileUploads[target.ID] != nil {
+					msgPins[target.ID]++
+				}
+				if s.Code >= 200 && s.Code < 300 && w.Disk.FileUploads[target.ID] != nil && !faulted {
 					if !linkedNow(target.ID) {
 						out = append(out, vio("C16", "attachment-not-linked "+a.Kind, "%s: %s listing %s was accepted (%d) but the file is not linked to anything", where, a.Kind, target.URL, s.Code))
 					} else {
@@ -539,6 +666,9 @@ func runC16(t *testing.T, sched simrt.Schedule, prog c16Prog) ([]Violation, RunS
 				w.setOps(map[int][]*Op{oc.Idx: {op}})
 				w.rt.Run(500*time.Millisecond, nil)
 				w.Enabled(true)
+				if s := oc.Sents[len(oc.Sents)-1]; s.Code >= 200 && s.Code < 300 {
+					msgPins = map[types.Uid]int{}
+				}
 				verifyStore(where, nil) // unlinking removes nothing by itself
 			case "wait", "gc":
 				d := time.Duration(a.Wait) * time.Second
